@@ -209,8 +209,9 @@
             range.start < range.end && old(vec)@.len() > 0 ==> old(vec)@.last().0.end <= range.start,
         ensures
             canon(final(vec)@),
-            forall|c: int| covers(final(vec)@, c) <==> covers(old(vec)@, c) || inr(range, c),
-            forall|c: int| covers(old(vec)@, c) ==> val_at(final(vec)@, c) == val_at(old(vec)@, c),
+            forall|c: int| #![trigger covers(final(vec)@, c)] #![trigger covers(old(vec)@, c)] #![trigger inr(range, c)]
+                covers(final(vec)@, c) <==> covers(old(vec)@, c) || inr(range, c),
+            forall|c: int| covers(old(vec)@, c) ==> #[trigger] val_at(final(vec)@, c) == val_at(old(vec)@, c),
             forall|c: int| inr(range, c) ==> #[trigger] val_at(final(vec)@, c).eq_spec(&value),
             range.start < range.end ==> final(vec)@.len() > 0 && final(vec)@.last().0.end == range.end,
             range.start >= range.end ==> final(vec)@ == old(vec)@,
